@@ -179,13 +179,14 @@ class Run:
         self.sess_cfg = plan.get("sessions", [])
         self.results = []  # per op: dict
         self.wire = {}  # idx -> list of dicts (decoded request summaries) in tx order
-        self.genuine = {}  # (idx, serial) -> Reply (pristine clone source)
+        self.wire_dec = {}  # (idx, serial) -> oracle.decode_wire result
+        self.genuine = {}  # "opid:k" -> Reply (pristine clone source)
         self.dgrams = {}  # dgram id -> dict(label, hex, s)
         self.latency = plan.get("latency_ns", 1_000_001)
         self.sim.on_send = self.on_send
-        for k, v in plan.get("send_errors", {}).items():
-            s, n = k.split(":")
-            self.sim.send_errors[(int(s), int(n))] = v
+        self.sim.pre_send = self.pre_send
+        self.cur_op = {}  # session idx -> [op id, requests sent within the op]
+        self.key_of = {}  # (idx, serial) -> "opid:k"
         ov = plan.get("sleep_overshoot")
         if ov:
             seq = list(ov)
@@ -199,8 +200,15 @@ class Run:
             self.sim.sleep_overshoot = overshoot
 
     # ---- network script
+    def pre_send(self, ep, serial):
+        cur = self.cur_op.setdefault(ep.idx, ["x%d" % ep.idx, 0])
+        cur[1] += 1
+        key = "%s:%d" % (cur[0], cur[1])
+        self.key_of[(ep.idx, serial)] = key
+        return self.plan.get("send_errors", {}).get(key)
+
     def script_for(self, idx, serial):
-        return self.plan.get("scripts", {}).get("%d:%d" % (idx, serial), DEFAULT_SCRIPT)
+        return self.plan.get("scripts", {}).get(self.key_of[(idx, serial)], DEFAULT_SCRIPT)
 
     def wire_ids(self, idx):
         w = self.wire.get(idx, [])
@@ -208,19 +216,18 @@ class Run:
 
     def on_send(self, ep, serial, data):
         idx = ep.idx
-        summ = {"serial": serial, "t": self.sim.now, "hex": data.hex()}
-        try:
-            m = snmp.decode_message(data, request=True)
-            summ["decoded"] = True
-            summ["version"] = m["version"]
-            if m["version"] == 3:
-                summ["msg_id"] = m["msg_id"]
-                summ["request_id"] = m["scoped"]["pdu"]["request_id"] if "scoped" in m else None
-            else:
-                summ["request_id"] = m["pdu"]["request_id"]
-        except ber.StrictError as e:
-            summ["decoded"] = False
-            summ["error"] = str(e)
+        from . import oracle
+
+        dec = oracle.decode_wire(self, idx, data)
+        self.wire_dec[(idx, serial)] = dec
+        summ = {"serial": serial, "t": self.sim.now, "hex": data.hex(), "decoded": dec["ok"]}
+        if dec["ok"]:
+            summ["version"] = dec["version"]
+            summ["request_id"] = dec["request_id"]
+            if dec["version"] == 3:
+                summ["msg_id"] = dec["msg_id"]
+        else:
+            summ["error"] = dec.get("error")
         self.wire.setdefault(idx, []).append(summ)
         script = self.script_for(idx, serial)
         req = script.get("req")
@@ -231,10 +238,7 @@ class Run:
         else:
             reps = self.agent.handle(data, answers)
             base = reps[0] if reps else None
-            if summ.get("request_id") is None and base is not None and base.label.get("version") == 3:
-                # encrypted request: the agent saw the request id
-                summ["request_id_seen_by_agent"] = base.label.get("request_id")
-        self.genuine[(idx, serial)] = base
+        self.genuine[self.key_of[(idx, serial)]] = base
         items = script.get("replies", DEFAULT_SCRIPT["replies"])
         for item in items:
             self.emit(idx, serial, item, base, data)
@@ -242,16 +246,8 @@ class Run:
     def id_ctx(self, idx, serial):
         w = self.wire.get(idx, [])
         cur = w[-1] if w else {}
-        rid = cur.get("request_id")
-        if rid is None:
-            rid = cur.get("request_id_seen_by_agent", 0) or 0
-        prev = []
-        for x in w[:-1]:
-            r = x.get("request_id")
-            if r is None:
-                r = x.get("request_id_seen_by_agent")
-            if r is not None:
-                prev.append(r)
+        rid = cur.get("request_id") or 0
+        prev = [x["request_id"] for x in w[:-1] if x.get("request_id") is not None]
         return {
             "cur": rid,
             "prev": prev,
@@ -286,7 +282,7 @@ class Run:
             return
         if k == "stale":
             # the genuine reply to an earlier request of this session, delivered now
-            src = self.genuine.get((idx, item["of"]))
+            src = self.genuine.get(item["of"])
             if src is None:
                 return
             rep = src.clone()
@@ -394,6 +390,7 @@ class Run:
         sim = self.sim
         t0 = sim.now
         sim.log("call", s, i, op.get("op"), t0)
+        self.cur_op[s] = [op.get("id", i), 0]
         res = {"s": s, "i": i, "op": op, "t0": t0, "tx0": self.sim.by_idx[s].tx_serial if s in self.sim.by_idx else 0}
         try:
             res["ok"] = fn()
@@ -509,6 +506,7 @@ class Run:
         sim = self.sim
         t0 = sim.now
         sim.log("call", s, i, op.get("op"), t0)
+        self.cur_op[s] = [op.get("id", i), 0]
         res = {"s": s, "i": i, "op": op, "t0": t0, "tx0": sim.by_idx[s].tx_serial}
         try:
             res["ok"] = await coro_fn()
@@ -638,7 +636,7 @@ class Run:
             if not inside:
                 continue
             if ev[0] == "tx" and ev[1] == s:
-                cur = {"serial": ev[2], "t": ev[3], "hex": ev[4], "send_err": ev[5], "rx": [], "rx_t": [], "none": False}
+                cur = {"serial": ev[2], "key": self.key_of.get((s, ev[2])), "t": ev[3], "hex": ev[4], "send_err": ev[5], "rx": [], "rx_t": [], "none": False}
                 out.append(cur)
             elif ev[0] == "rx" and ev[1] == s and cur is not None:
                 cur["rx"].append(ev[3])
